@@ -457,7 +457,48 @@ impl<'a> World<'a> {
                 self.create_ks(name, cfg)?;
             }
             Op::DeleteKs { ks, keep_handle } => self.op_delete_ks(*ks, *keep_handle)?,
-            Op::StaleWrite { i, k, v } => {
+            Op::StaleWrite { i, k, v, batch: true } => {
+                let Some(j) = idx(*i, self.stale.len()) else { return Ok(()) };
+                if self.sw_tx_open() {
+                    return Ok(());
+                }
+                let h = self.stale[j].h.clone();
+                let (k, v) = (k.mat(), v.as_ref().map(B::mat));
+                // accepted or refused: the statement only says that it never shows up in a live
+                // keyspace (now or after a reopen) — the model stays as it is
+                let ok = match self.db.as_ref().unwrap() {
+                    DbH::Plain(d) => {
+                        let mut b = d.batch();
+                        match &v {
+                            Some(v) => b.insert(&h.ks, k.clone(), v.clone()),
+                            None => b.remove(&h.ks, k.clone()),
+                        }
+                        b.commit().is_ok()
+                    }
+                    DbH::Single(d) => {
+                        let mut tx = d.write_tx();
+                        let hk = h.sw.as_ref().unwrap();
+                        match &v {
+                            Some(v) => tx.insert(hk, k.clone(), v.clone()),
+                            None => tx.remove(hk, k.clone()),
+                        }
+                        tx.commit().is_ok()
+                    }
+                    DbH::Opt(d) => {
+                        let mut tx = d.write_tx().map_err(es("write_tx"))?;
+                        match &v {
+                            Some(v) => tx.insert(&h.ks, k.clone(), v.clone()),
+                            None => tx.remove(&h.ks, k.clone()),
+                        }
+                        matches!(tx.commit(), Ok(Ok(())))
+                    }
+                };
+                self.st.inc(if ok { "stale_batches_accepted" } else { "stale_batches_refused" });
+                if self.model.contains_key(&self.stale[j].name) {
+                    self.st.inc("stale_batch_while_name_recreated");
+                }
+            }
+            Op::StaleWrite { i, k, v, batch: false } => {
                 let Some(j) = idx(*i, self.stale.len()) else { return Ok(()) };
                 let h = self.stale[j].h.clone();
                 let k = k.mat();
